@@ -17,6 +17,21 @@ pub(crate) struct Peer {
     pub(crate) send_queue: ZmqFramedWrite,
 }
 
+/// Puts a peer taken from the round-robin queue back when dropped, so that a send which is
+/// abandoned while it waits for the connection does not remove the peer from the rotation.
+struct Requeue<'a> {
+    queue: &'a SegQueue<PeerIdentity>,
+    peer_id: Option<PeerIdentity>,
+}
+
+impl Drop for Requeue<'_> {
+    fn drop(&mut self) {
+        if let Some(peer_id) = self.peer_id.take() {
+            self.queue.push(peer_id);
+        }
+    }
+}
+
 pub(crate) struct GenericSocketBackend {
     pub(crate) peers: scc::HashMap<PeerIdentity, Peer>,
     fair_queue_inner: Option<Arc<Mutex<QueueInner<ZmqFramedRead, PeerIdentity>>>>,
@@ -62,16 +77,24 @@ impl GenericSocketBackend {
                     }
                 },
             };
+            let mut turn = Requeue {
+                queue: &self.round_robin,
+                peer_id: Some(next_peer_id.clone()),
+            };
             let send_result = match self.peers.get_async(&next_peer_id).await {
                 Some(mut peer) => peer.send_queue.send(message).await,
-                None => continue,
+                None => {
+                    turn.peer_id = None;
+                    continue;
+                }
             };
             return match send_result {
                 Ok(()) => {
-                    self.round_robin.push(next_peer_id.clone());
+                    drop(turn);
                     Ok(next_peer_id)
                 }
                 Err(e) => {
+                    turn.peer_id = None;
                     self.peer_disconnected(&next_peer_id);
                     Err(e.into())
                 }
